@@ -2432,7 +2432,10 @@ def _glom(target, spec, scope):
 
         return (scope.maps[0][MIN_MODE] or scope.maps[0][MODE])(target, spec, scope)
     except Exception as e:
-        scope.maps[1][CHILD_ERRORS].append(scope)
+        # (the walk below may have recorded this scope already: a stage like
+        # windowed() pulls its first items inside Iter's own evaluation)
+        if not any(s is scope for s in scope.maps[1][CHILD_ERRORS]):
+            scope.maps[1][CHILD_ERRORS].append(scope)
         scope.maps[0][CUR_ERROR] = e
         if NO_PYFRAME in scope.maps[1]:
             cur_scope = scope[UP]
